@@ -258,7 +258,9 @@ def verify_function(reg, sources, key, canary=True):
             cur_len = st.heap.get("$len")
             if cur_len is not None:
                 was_len = _hl(old_heap, "$len")
-                g = simp(z3.Select(cur_len, _fx.FS_TRACE) == z3.Select(was_len, _fx.FS_TRACE))
+                # the trace is a pre-existing object (ids >= 0); objects allocated by the function have negative ids
+                g = simp(z3.Implies(_fx.FS_TRACE >= 0,
+                                    z3.Select(cur_len, _fx.FS_TRACE) == z3.Select(was_len, _fx.FS_TRACE)))
                 if not z3.is_true(g):
                     ctx.oblige(f"{qual}#frame:fs-trace", g, {"kind": "frame"})
         if outcome == "return":
